@@ -43,6 +43,8 @@ func main() {
 		opAggregate(r, *n, *tier)
 	case "less3":
 		opLess3(r, *n, *tier)
+	case "replay":
+		opReplay()
 	default:
 		_ = replay
 		fmt.Fprintf(os.Stderr, "unknown op %q\n", op)
